@@ -89,6 +89,16 @@ def variants(name, f, rng, n_extra=2):
             for alt in range(0, 5):
                 if alt != v:
                     out.append({k: alt})
+    # knobs whose default 0 switches a term off (`mult` of devstop, `vfactor` of t3): a non-zero value alone and
+    # together with every small selector value, so that the selected branch actually reaches the result
+    sels = [k for k in ints if 0 <= d['numeric'][k] < 2 and any(t in k for t in ('mode', 'type'))]
+    offs = [k for k, v in d['numeric'].items() if v == 0 and k not in sels and k not in mats]
+    for k in offs:
+        out.append({k: 1.5})
+        for s in sels:
+            for alt in range(0, 3):
+                if alt != d['numeric'][s]:
+                    out.append({k: 1.5, s: alt})
     # the smallest windows (1, 2, 3): where a warm-up mask, a shift or a roll no longer hides the first / last rows;
     # one knob at a time, all others at their defaults (a value the function rejects is dropped by the caller)
     for k in ints:
